@@ -74,14 +74,19 @@ func (c *counter) Inc(v int64) {
 }
 
 func (c *counter) value() int64 {
-	curr := atomic.LoadInt64(&c.curr)
-
-	prev := atomic.LoadInt64(&c.prev)
-	if prev == curr {
-		return 0
+	for {
+		// n.b. prev must be read before curr so that, with non-negative
+		//      increments, the delta handed to concurrent reporters is never
+		//      negative; the CAS makes "subtract prev, advance prev" one step.
+		prev := atomic.LoadInt64(&c.prev)
+		curr := atomic.LoadInt64(&c.curr)
+		if prev == curr {
+			return 0
+		}
+		if atomic.CompareAndSwapInt64(&c.prev, prev, curr) {
+			return curr - prev
+		}
 	}
-	atomic.StoreInt64(&c.prev, curr)
-	return curr - prev
 }
 
 func (c *counter) report(name string, tags map[string]string, r StatsReporter) {
